@@ -155,6 +155,13 @@ class Session:
             elif cls.startswith("len:"):                  # reply payload cut / extended to n bytes (size field consistent)
                 n = int(cls[4:])
                 park(landev.v3_plain_packet(1, 0, (body + bytes(range(1, 40)))[:n]), "HSR", k, n == 64)
+            elif cls.startswith("lentype:"):              # over-long reply (genuine proof + trailing bytes) whose type byte carries a "padding" count in its upper nibble
+                _, n, hi = cls.split(":")
+                q = bytearray(landev.v3_plain_packet(1, 0, (body + bytes(range(1, 40)))[:int(n)]))
+                q[5] = (int(hi) << 4) | 1
+                park(bytes(q), "HSR", k, False)
+            elif cls.startswith("cut:"):                  # the transport delivers only the first n bytes of the reply, then nothing more
+                park(p[:int(cls[4:])], "OTHER")
             elif cls.startswith("type:"):                 # another packet type nibble in place of the reply
                 t = int(cls[5:])
                 park(p[:5] + bytes([(p[5] & 0xF0) | t]) + p[6:], {1: "HSR", 15: "ERR", 3: "ENC"}.get(t, "OTHER"), k if t in (1, 3) else 0, t == 1)
